@@ -58,6 +58,39 @@ CLAIMS = {
              "|both|/|either| over the full range with 1.0 for an empty union (symmetric by normal form); join refuses foreign types "
              "and mismatched geometry/hash before any store; no operation writes its operand. Does not decide the numeric value.",
         design_ref="DESIGN.md section 4 C13"),
+    "C02": dict(
+        technique="normal-form agreement of cell-index expressions across add/remove/check; per-branch stored-vs-reported comparison",
+        text="Structural part: add_alt, remove_alt and check_alt of the count-min sketch address the same cell per row "
+             "((hash % width) + row*width over enumerate(hashes)); each row gets exactly one store per call of cell +/- num_els or "
+             "the clamp constant; on every branch the stored value equals the value reported for that row; all three return "
+             "query(sorted(rows)) and the default query is element 0; the total moves by +/- num_els before the query runs. The "
+             "numeric lower/upper bound is the consequence under array('i') semantics, not a checked fact.",
+        design_ref="DESIGN.md section 4 C02"),
+    "C09": dict(
+        technique="path-shape rules (must-precede, exactly-once) and ordering-set judgement of the growth predicate under an inductive hypothesis",
+        text="Structural part: on every path of ExpandingBloomFilter.add_alt the total is incremented exactly once, the key is "
+             "inserted into the newest sub-filter exactly when force or not present, and the growth check runs once before the "
+             "insertion; the growth predicate admits growth only at count >= est and never leaves count = est without growth "
+             "(judged by ordering sets under count <= est, so >=/==/not< pass and >, >= est-1 fail); growth appends one sub-filter "
+             "built with the filter's own est_elements; a sub-filter counts one per add_alt. The closed form for the number of "
+             "expansions is the arithmetic consequence.",
+        design_ref="DESIGN.md section 4 C09, E8"),
+    "C10": dict(
+        technique="decision table over enumerated paths of the rotation with predicates judged by ordering sets; FIFO orientation rule",
+        text="Structural part: __rotate_bloom_filter appends exactly when force or ready; appends without room are preceded by "
+             "exactly one pop(0), appends with room by none, a pop is always followed by an append; only pop(0)/append touch the "
+             "queue (FIFO); pop() refuses a single-element queue before mutating; push forces; add_alt counts every call, inserts "
+             "exactly when force or not present and rotates first; max_queue_size is written only by the constructor. Bounded "
+             "queue, never empty and the sliding-window clause follow from FIFO plus these bounds.",
+        design_ref="DESIGN.md section 4 C10, E8"),
+    "C17": dict(
+        technique="decision tables (predicate abstraction by ordering sets) over enumerated paths; stored-vs-returned comparison",
+        text="Structural part: StreamThreshold.add_alt/remove_alt set table[key] = estimate exactly on paths with estimate >= "
+             "threshold and pop the key exactly on paths below it; HeavyHitters.add_alt grows the table only with room (size < "
+             "limit), replaces by storing then evicting exactly the minimum, leaves a key untracked only when its estimate cannot "
+             "exceed the cached smallest; recorded and returned values are the sketch's estimate; cached size/smallest are "
+             "len(table)/table minimum. Does not decide tie-breaking or the relation of estimates to true counts.",
+        design_ref="DESIGN.md section 4 C17, E8"),
 }
 
 NA_DEFAULT = "check not built yet (build phase in progress; DESIGN.md section 4 gives the planned rule)"
